@@ -126,10 +126,39 @@ func c01Labels(d srtDoc, r srtRendering, size int) (bool, []string) {
 	return len(d.Cues) > 0 && len(ls) > 0, ls
 }
 
+// decorateNBSP puts no-break spaces at the edges of some runs and makes some runs consist of nothing else
+// (spacer runs between two styled words, spacer lines); it reports whether it changed anything.
+func decorateNBSP(t *rapid.T, d *srtDoc) bool {
+	changed := false
+	for ci := range d.Cues {
+		for li := range d.Cues[ci].Lines {
+			for ri := range d.Cues[ci].Lines[li] {
+				run := &d.Cues[ci].Lines[li][ri]
+				switch rapid.IntRange(0, 11).Draw(t, "nbspdeco") {
+				case 0:
+					run.Text = "\u00a0" + run.Text
+				case 1:
+					run.Text += "\u00a0"
+				case 2:
+					run.Text = strings.Repeat("\u00a0", rapid.IntRange(1, 2).Draw(t, "nbspn"))
+				default:
+					continue
+				}
+				changed = true
+			}
+		}
+	}
+	return changed
+}
+
 func TestC01(t *testing.T) {
 	runWitnesses(t, "C01")
 	rapidCheck(t, "C01/read", tier(4000, 400000), func(rt *rapid.T) {
 		c := c01ReadCase{Doc: genSRTDoc(rt, srtTextOpts), Rend: genSRTRendering(rt)}
+		if decorateNBSP(rt, &c.Doc) {
+			// a no-break space at the edge of a run is only denoted by the entity (a literal one is white space to SubRip readers)
+			c.Rend.NBSPEntity = true
+		}
 		b := renderSRT(c.Doc, c.Rend)
 		nt, ls := c01Labels(c.Doc, c.Rend, len(b))
 		ev.Case(nt, string(b), append(ls, "read")...)
@@ -141,6 +170,7 @@ func TestC01(t *testing.T) {
 	rapidCheck(t, "C01/write", tier(2000, 200000), func(rt *rapid.T) {
 		o := srtTextOpts
 		c := c01WriteCase{Doc: genSRTDoc(rt, o)}
+		decorateNBSP(rt, &c.Doc)
 		nt, ls := c01Labels(c.Doc, srtRendering{PadL: " ", PadR: " "}, 0)
 		ev.Case(nt, fmt.Sprintf("w%v", c.Doc), append(ls, "write")...)
 		if nt && len(c.Doc.Cues) <= 2 {
